@@ -274,6 +274,7 @@ def _re_setup(ck, rng, linear=None, **kw):
 
 
 def case_re(ck, rng, force=None):
+    vh.jax_budget_guard(ck, forced=force is not None)
     force = force or {}
     jax, jnp, jft, rs, m, mir, lh, x0, pos = _re_setup(ck, rng, linear=force.get("linear"),
                                                        nkeys=2 if force.get("pe") else None)
@@ -460,6 +461,7 @@ def smoke(ck, rng, api):
         zero = ift.full(b["dom"], 0.)
         Rm = np.stack([vh.cl_vec(mir, f) for f in kl.samples.at(zero).local_iterator()])
     else:
+        vh.jax_budget_guard(ck, forced=ck.i is not None and ck.i < 8)
         jax, jnp, jft, rs, m, mir, lh, x0, pos = _re_setup(ck, rng)
         rs.off()
         kseed = int(rng.integers(0, 2**31))
